@@ -635,6 +635,9 @@ def run(ctx):
     from .. import interval
     from . import C03, C08
     interval.leb128_obligations(ctx, "C01.R7")
+    from . import C12 as _C12
+    for _cls in ("Enum", "FlagsEnum"):
+        _C12.enum_merge(ctx, "C01.R7", _cls)          # an alias merged into the tables would make decode(encode(label)) another label (shared with C12.R2)
     from . import C10_helpers
     C10_helpers.zigzag(ctx, "C01.R7")
     C10_helpers.varint_parse_form(ctx, "C01.R7")
@@ -650,7 +653,9 @@ def run(ctx):
     # bit-level and byte-transforming constructs (named in the property): the stream machinery and the inversion structure, shared
     from ..core import Ctx as _Ctx
     from . import C10, C15
-    for mod, rules in ((C10, ("C10.R1", "C10.R2", "C10.R4", "C10.R6")), (C15, ("C15.R1", "C15.R2", "C15.R4", "C15.R7"))):
+    from . import C09
+    # (C09.R3/R4 build side: an alternative or element that fails while building leaves nothing behind in the output, or parsing the bytes sees the debris)
+    for mod, rules in ((C10, ("C10.R1", "C10.R2", "C10.R4", "C10.R6")), (C15, ("C15.R1", "C15.R2", "C15.R4", "C15.R6", "C15.R7")), (C09, ("C09.R3", "C09.R4"))):
         sub = _Ctx(mod.__name__.split(".")[-1], ctx.tier, ctx.root, model=ctx.model)
         sub._summ = summariser(ctx)
         mod.run(sub)
